@@ -7,6 +7,10 @@
 #             harness/drv_isolation.cc against the extracted model; after EVERY step the dump (unparse + JSON)
 #             of every other document, of every handle obtained from another document and of a fresh parse
 #             must be unchanged;
+#      (alias) histories over storage that several parties CAN reach (Sys/HeapShare.v: template values in several documents,
+#             direct values moved between documents, streams whose foreign copies share a Buffer, Buffers handed to the
+#             caller and edited in place) against the second extracted model; after EVERY step unparse / stream data / JSON /
+#             QPDFWriter bytes of every other document, every retained handle and every other Buffer must be unchanged;
 #      (solo) the history restricted to one document must give that document the same dumps;
 #      (file) bystander check on real PDF files (processMemoryFile, writeJSON, QPDFWriter, copyForeignObject);
 #      (thr)  N threads x independent jobs under ThreadSanitizer, outputs compared with the solo runs.
@@ -19,7 +23,9 @@ import common, pdfgen
 
 ASSUMPTIONS = [
     "the theorems quantify over all interleavings of the MODEL's steps; the implementation's interleavings are only sampled and ThreadSanitizer only sees executed paths",
-    "the heap model covers parse / makeIndirectObject / replaceKey / removeKey / appendItem / setArrayItem / eraseItem / replaceObject / ~QPDF on null, bool, integer, name, array (dense and sparse), dictionary, reference; streams, strings, reals, copyForeignObject and the writer are covered by the implementation-side bystander oracle only",
+    "the first heap model (Sys/Heap.v, disjoint arenas) covers parse / makeIndirectObject / replaceKey / removeKey / appendItem / setArrayItem / eraseItem / replaceObject / ~QPDF on null, bool, integer, name, array (dense and sparse), dictionary, reference; the second (Sys/HeapShare.v, shared storage) adds context-free parse, handles of other parties as values, unfiltered streams of every provenance, newStream / replaceStreamData / copyForeignObject of objects without indirect parts / getRawStreamData / getStreamData / QPDFWriter memory output / in-place edits of handed-out Buffers; strings, reals, filtered streams, page helpers and the writer's bytes are covered by the implementation-side bystander oracles only",
+    "hx_frame_other_parties has the premise that no document sees another document's indirect objects (xsep_b); the extracted test runs on every world the histories reach (a failure is reported), its preservation is not proved; model closures have depth <= 41, the generator nests far less",
+    "the alias alphabet only edits in place what no other party can reach, never writes into a Buffer after passing it to replaceStreamData(shared_ptr<Buffer>), leaves /Length out of dumps (derived data), and the driver keeps destroyed documents' storage allocated (dangling QPDF* of unattached direct objects is compared by address in checkOwnership)",
     "operations of one document only use handles obtained from that document (the property's premise); the driver enforces it by tagging every held handle",
 ]
 
@@ -363,6 +369,667 @@ def part_seq(chk, drv, runner):
     chk.cov["parts"]["solo"]["projected_histories"] = len(sl)
 
 
+# ------------------------------------------------------------------ storage several parties can reach (Sys/HeapShare.v)
+
+XKEYS = "ABCDK"
+XSEG = re.compile(r"(?:^| )(d\d+\{|r\d+@\d+=|b\d+=|F=)")
+XHASH = re.compile(r"j[0-9a-f]{16}(?:w[0-9a-f]{16})?")
+
+
+def xgen_tree(rng, depth, nulls=True):
+    """(tokens, shape) of a direct value without references; shape as in gen_tree"""
+    if depth > 0 and rng.random() < 0.5:
+        if rng.random() < 0.55:
+            toks, kids = ["["], []
+            for _ in range(rng.randint(0, 3)):
+                t, sh = xgen_tree(rng, depth - 1, nulls)
+                toks += t
+                kids.append(sh)
+            return toks + ["]"], ("a", kids)
+        toks, kids = ["<"], {}
+        for key in rng.sample(XKEYS, rng.randint(0, 3)):        # distinct keys: a duplicate key is an error for a context-free parse
+            t, sh = xgen_tree(rng, depth - 1, nulls)
+            toks += ["N" + key] + t
+            kids[key] = sh
+        return toks + [">"], ("d", kids)
+    k = rng.random()
+    if nulls and k < 0.12:
+        return ["n"], ("n",)
+    if k < 0.7:
+        return ["i%d" % rng.randint(-3, 700)], ("s",)
+    return ["N" + rng.choice(XKEYS)], ("s",)
+
+
+def xgen_root(rng, depth=2, nulls=True):
+    while True:
+        t, sh = xgen_tree(rng, depth, nulls)
+        if sh[0] in ("a", "d"):
+            return t, sh
+
+
+def xpath(rng, shape, stop=0.35, want=None):
+    """random path into a shape -> (steps, shape at the end)"""
+    steps, cur = [], shape
+    for _ in range(3):
+        if cur[0] == "a" and cur[1] and rng.random() > stop:
+            i = rng.randrange(len(cur[1]))
+            steps.append("i%d" % i)
+            cur = cur[1][i]
+        elif cur[0] == "d" and cur[1] and rng.random() > stop:
+            key = rng.choice(sorted(cur[1]))
+            steps.append("k" + key)
+            cur = cur[1][key]
+        elif cur[0] == "S" and rng.random() > stop:
+            steps.append("d")
+            cur = ("d", {})
+        else:
+            break
+    return steps, cur
+
+
+class XGen:
+    """history generator for the isox alphabet; keeps an approximate picture of the world so that most operations are
+    performed; what it gets wrong only produces a 'skip'"""
+
+    def __init__(self, rng):
+        self.rng = rng
+        self.ops = []
+        self.ndocs = 0
+        self.alive = set()
+        self.kind = {}                  # doc -> 'D' | 'F0' | 'F1'
+        self.roots = {}                 # variable -> [party, shape]
+        self.nobj = {}                  # doc -> object count
+        self.held = {}                  # buffer variable -> 'fresh' | 'given' | 'writer'
+        self.inserts = 0
+
+    def emit(self, op):
+        self.ops.append(op)
+
+    def new_doc(self, kind=None):
+        rng = self.rng
+        self.ndocs += 1
+        d = self.ndocs
+        kind = kind or rng.choice(["D", "D", "F0", "F1"])
+        self.kind[d] = kind
+        self.alive.add(d)
+        if kind == "D":
+            self.emit("D,%d" % d)
+            self.nobj[d] = 2
+        else:
+            self.emit("F,%d,%s" % (d, kind[1]))
+            self.nobj[d] = 5
+        return d
+
+    def free_root(self, p):
+        used = [r for r in self.roots if r // 10 == p]
+        cand = [r for r in range(10 * p + (1 if p == 0 else 0), 10 * p + 10) if r not in used]
+        return self.rng.choice(cand) if cand and self.rng.random() < 0.85 else self.rng.randint(10 * p, 10 * p + 9)
+
+    def parse(self, p, depth=2):
+        t, sh = xgen_root(self.rng, depth)
+        r = self.free_root(p)
+        self.emit("P,%d,%d,%s" % (p, r, ".".join(t)))
+        self.roots[r] = [p, sh]
+        return r
+
+    def own_handle(self, d, kinds="ad", stop=0.35):
+        """(expression, shape) of a handle of party d (variable or object, then a path)"""
+        rng = self.rng
+        rs = [r for r, (p, sh) in self.roots.items() if p == d]
+        if rs and rng.random() < 0.8:
+            r = rng.choice(rs)
+            steps, end = xpath(rng, self.roots[r][1], stop)
+            return "/".join(["r%d" % r] + steps), end
+        if d in self.nobj and self.nobj[d] >= 3:
+            o = rng.randint(3, self.nobj[d])
+            if self.kind.get(d, "D") != "D" and o in (3, 4):
+                steps, end = xpath(rng, ("S",), stop)
+                return "/".join(["o%d" % o] + steps), end
+            return "o%d" % o, ("?",)
+        return "r%d" % (10 * d + rng.randint(0, 9)), ("?",)
+
+    def value(self, d):
+        """value expression for an operation of d: a new scalar / container, an own handle, or a variable of ANOTHER party"""
+        rng = self.rng
+        k = rng.random()
+        others = [r for r, (p, sh) in self.roots.items() if p != d and sh[0] in ("a", "d")]
+        if others and k < 0.45:
+            r = rng.choice(others)
+            steps, end = xpath(rng, self.roots[r][1], 0.6)
+            return "/".join(["r%d" % r] + steps), end
+        if k < 0.65:
+            return rng.choice(["I%d" % rng.randint(0, 99), "U", "Y" + rng.choice(XKEYS), "B", "G"]), ("s",)
+        return self.own_handle(d, stop=0.5)
+
+    def step(self, d=None):
+        rng = self.rng
+        if d is None:
+            d = rng.choice(sorted(self.alive)) if self.alive and rng.random() < 0.93 else rng.randint(0, max(1, self.ndocs))
+        k = rng.random()
+        if k < 0.10:
+            self.parse(d if rng.random() < 0.7 else 0)
+        elif k < 0.17:
+            h, end = self.own_handle(d)
+            r = self.free_root(d)
+            self.emit("H,%d,%d,%s" % (d, r, h))
+            self.roots[r] = [d, end]
+        elif k < 0.27:
+            h, end = self.own_handle(d, stop=0.5)
+            self.emit("M,%d,%s" % (d, h))
+            self.nobj[d] = self.nobj.get(d, 2) + 1
+        elif k < 0.47:
+            h, end = self.own_handle(d)
+            v, vs = self.value(d)
+            if vs[0] in ("a", "d", "?"):
+                self.inserts += 1
+                if self.inserts > 8:
+                    v = "I7"
+            if end[0] == "d" or (end[0] != "a" and rng.random() < 0.4):
+                self.emit("K,%d,%s,%s,%s" % (d, h, rng.choice(XKEYS), v))
+            elif rng.random() < 0.6:
+                self.emit("A,%d,%s,%s" % (d, h, v))
+            else:
+                self.emit("S,%d,%s,%d,%s" % (d, h, rng.randint(0, 3), v))
+        elif k < 0.53:
+            h, end = self.own_handle(d)
+            if end[0] == "d" or (end[0] != "a" and rng.random() < 0.5):
+                self.emit("R,%d,%s,%s" % (d, h, rng.choice(sorted(end[1])) if end[0] == "d" and end[1] else rng.choice(XKEYS)))
+            else:
+                self.emit("E,%d,%s,%d" % (d, h, rng.randint(0, 3)))
+        elif k < 0.58:
+            self.emit("X,%d" % d)
+            self.alive.discard(d)
+        elif k < 0.62:
+            self.emit("W,%d" % d)
+        elif k < 0.69:
+            r = self.free_root(d)
+            self.emit("N,%d,%d,%s" % (d, r, "".join("%02x" % rng.randint(97, 122) for _ in range(rng.randint(0, 6)))))
+            self.roots[r] = [d, ("S",)]
+            self.nobj[d] = self.nobj.get(d, 2) + 1
+        elif k < 0.73:
+            self.emit("Z,%d,%s,%s" % (d, self.stream_handle(d), "".join("%02x" % rng.randint(65, 90) for _ in range(rng.randint(1, 5)))))
+        elif k < 0.83:
+            srcs = [s for s in self.alive if s != d]
+            if srcs:
+                s = rng.choice(srcs)
+                h = self.stream_handle(s) if rng.random() < 0.75 else self.own_handle(s, stop=0.9)[0]
+                r = self.free_root(d)
+                self.emit("C,%d,%d,%s,%d" % (d, s, h, r))
+                self.roots[r] = [d, ("S",) if rng.random() < 0.75 else ("?",)]
+                self.nobj[d] = self.nobj.get(d, 2) + 1
+        elif k < 0.90:
+            b = rng.randint(0, 4)
+            self.emit("%s,%d,%s,%d" % (rng.choice("Gg"), d, self.stream_handle(d), b))
+            self.held[b] = "fresh"
+        elif k < 0.93:
+            b = rng.randint(0, 4)
+            self.emit("V,%d,%d" % (d, b))
+            self.held[b] = "writer"
+        elif k < 0.97:
+            self.mutate()
+        else:
+            bs = [b for b, st in self.held.items() if st == "fresh"]
+            if bs:
+                b = rng.choice(bs)
+                self.emit("B,%d,%s,%d" % (d, self.stream_handle(d), b))
+                self.held[b] = "given"
+
+    def stream_handle(self, d):
+        rng = self.rng
+        rs = [r for r, (p, sh) in self.roots.items() if p == d and sh[0] == "S"]
+        if rs and rng.random() < 0.7:
+            return "r%d" % rng.choice(rs)
+        if self.kind.get(d, "D") != "D" and rng.random() < 0.8:
+            return "o%d" % rng.choice([3, 4])
+        return "o%d" % rng.randint(3, max(3, self.nobj.get(d, 3)))
+
+    def mutate(self, b=None):
+        rng = self.rng
+        if b is None:
+            if not self.held:
+                return
+            b = rng.choice(sorted(self.held))
+        self.emit("U,0,%d,%d,%d" % (b, rng.randint(0, 3) if self.held.get(b) != "writer" else rng.randint(0, 60), rng.randint(33, 126)))
+
+    def text(self):
+        return ";".join(self.ops)
+
+
+def xgen_random(rng):
+    g = XGen(rng)
+    for _ in range(rng.choice([2, 2, 3])):
+        g.new_doc()
+    for d in sorted(g.alive):
+        if rng.random() < 0.8:
+            g.parse(d)
+    if rng.random() < 0.7:
+        g.parse(0)
+    for _ in range(rng.randint(6, 20)):
+        g.step()
+    for d in sorted(g.alive):
+        if rng.random() < 0.5:
+            g.emit("W,%d" % d)
+    return g.text()
+
+
+def xgen_templates(rng):
+    """template values kept by the program and put into several documents; documents die one after the other"""
+    g = XGen(rng)
+    nd = rng.choice([2, 2, 3])
+    ts = [g.parse(0, depth=rng.choice([1, 2, 2])) for _ in range(rng.choice([1, 2, 2]))]
+    docs = []
+    order = rng.choice(["together", "sequential"])
+    for i in range(nd):
+        d = g.new_doc(rng.choice(["D", "D", "D", "F0"]))
+        docs.append(d)
+        c = g.parse(d, depth=1)
+        if rng.random() < 0.7:
+            g.emit("M,%d,r%d" % (d, c))
+            g.nobj[d] += 1
+        for t in ts:
+            if rng.random() < 0.85:
+                steps, end = xpath(rng, g.roots[t][1], 0.75)
+                v = "/".join(["r%d" % t] + steps)
+                if g.roots[c][1][0] == "d":
+                    g.emit("K,%d,r%d,%s,%s" % (d, c, rng.choice(XKEYS), v))
+                else:
+                    g.emit(rng.choice(["A,%d,r%d,%s" % (d, c, v), "S,%d,r%d,0,%s" % (d, c, v)]))
+        if rng.random() < 0.4:
+            h, end = g.own_handle(d, stop=0.2)
+            r = g.free_root(d)
+            g.emit("H,%d,%d,%s" % (d, r, h))
+            g.roots[r] = [d, end]
+        for _ in range(rng.randint(0, 2)):
+            g.step(d)
+        if order == "sequential":
+            g.emit("W,%d" % d)
+            g.emit("X,%d" % d)
+            g.alive.discard(d)
+    if order == "together":
+        rng.shuffle(docs)
+        for d in docs[:rng.randint(1, len(docs))]:
+            if rng.random() < 0.5:
+                g.emit("W,%d" % d)
+            g.emit("X,%d" % d)
+            g.alive.discard(d)
+            for _ in range(rng.randint(0, 2)):
+                g.step()
+    for d in sorted(g.alive):
+        g.emit("W,%d" % d)
+    return g.text()
+
+
+def xgen_takeout(rng):
+    """a direct container taken out of document 1 (variable kept, entry erased or not) and put into document 2; then 1 dies"""
+    g = XGen(rng)
+    a = g.new_doc(rng.choice(["D", "D", "F0"]))
+    b = g.new_doc("D")
+    ca = g.parse(a, depth=1)
+    cb = g.parse(b, depth=1)
+    ka, kb = g.roots[ca][1][0], g.roots[cb][1][0]
+    key = rng.choice(XKEYS)
+    fresh = rng.choice(["B", "G"])
+    # an owner-less container created through the API inside document a, filled, held in a variable
+    g.emit(("K,%d,r%d,%s,%s" % (a, ca, key, fresh)) if ka == "d" else ("A,%d,r%d,%s" % (a, ca, fresh)))
+    sub = ("k" + key) if ka == "d" else "i%d" % len(g.roots[ca][1][1])
+    for _ in range(rng.randint(1, 3)):
+        v = rng.choice(["I%d" % rng.randint(0, 999), "Y" + rng.choice(XKEYS), "B"])
+        g.emit(("K,%d,r%d/%s,%s,%s" % (a, ca, sub, rng.choice(XKEYS), v)) if fresh == "G" else ("A,%d,r%d/%s,%s" % (a, ca, sub, v)))
+    r = g.free_root(a)
+    g.emit("H,%d,%d,r%d/%s" % (a, r, ca, sub))
+    g.roots[r] = [a, ("d", {}) if fresh == "G" else ("a", [])]
+    if rng.random() < 0.5:
+        g.emit("M,%d,r%d" % (a, ca))
+    mode = rng.choice(["keep", "erase", "after-death"])
+    if mode == "erase":
+        g.emit(("R,%d,r%d,%s" % (a, ca, key)) if ka == "d" else ("E,%d,r%d,%d" % (a, ca, len(g.roots[ca][1][1]))))
+    if mode == "after-death":
+        # also a value parsed WITH context: it only becomes movable once its document is gone
+        h, end = g.own_handle(a, stop=0.1)
+        r2 = g.free_root(a)
+        g.emit("H,%d,%d,%s" % (a, r2, h))
+        g.roots[r2] = [a, end]
+        g.emit("X,%d" % a)
+        g.alive.discard(a)
+    for rr in [x for x, (p, sh) in g.roots.items() if p == a and x != ca]:
+        if rng.random() < 0.8:
+            g.emit(("K,%d,r%d,%s,r%d" % (b, cb, rng.choice(XKEYS), rr)) if kb == "d" else ("A,%d,r%d,r%d" % (b, cb, rr)))
+    if rng.random() < 0.6:
+        g.emit("M,%d,r%d" % (b, cb))
+    for _ in range(rng.randint(0, 3)):
+        g.step()
+    if a in g.alive:
+        if rng.random() < 0.5:
+            g.emit("W,%d" % a)
+        g.emit("X,%d" % a)
+        g.alive.discard(a)
+    for _ in range(rng.randint(0, 2)):
+        g.step(b)
+    g.emit("W,%d" % b)
+    return g.text()
+
+
+def xgen_buffers(rng):
+    """streams of every provenance, copied between documents; buffers handed out by the library are edited in place"""
+    g = XGen(rng)
+    kinds = [rng.choice(["D", "F0", "F1"]) for _ in range(rng.choice([2, 2, 3]))]
+    if all(k == "D" for k in kinds):
+        kinds[0] = rng.choice(["F0", "F1"])
+    docs = [g.new_doc(k) for k in kinds]
+    streams = {d: [] for d in docs}         # doc -> stream handle expressions
+    for d in docs:
+        if g.kind[d] != "D":
+            streams[d] += ["o3", "o4"]
+        for _ in range(rng.randint(0, 2)):
+            r = g.free_root(d)
+            g.emit("N,%d,%d,%s" % (d, r, "".join("%02x" % rng.randint(97, 122) for _ in range(rng.randint(1, 6)))))
+            g.roots[r] = [d, ("S",)]
+            g.nobj[d] += 1
+            streams[d].append("r%d" % r)
+        if streams[d] and rng.random() < 0.4:
+            g.emit("Z,%d,%s,%s" % (d, rng.choice(streams[d]), "".join("%02x" % rng.randint(65, 90) for _ in range(rng.randint(1, 5)))))
+    nb = 0
+    for _ in range(rng.randint(5, 14)):
+        k = rng.random()
+        live = [d for d in docs if d in g.alive]
+        if not live:
+            break
+        d = rng.choice(live)
+        if k < 0.30:
+            srcs = [s for s in live if s != d and streams[s]]
+            if srcs:
+                s = rng.choice(srcs)
+                r = g.free_root(d)
+                g.emit("C,%d,%d,%s,%d" % (d, s, rng.choice(streams[s]), r))
+                g.roots[r] = [d, ("S",)]
+                g.nobj[d] += 1
+                streams[d].append("r%d" % r)
+        elif k < 0.62 and streams[d]:
+            b = nb % 5
+            nb += 1
+            g.emit("%s,%d,%s,%d" % (rng.choice("Gg"), d, rng.choice(streams[d]), b))
+            g.held[b] = "fresh"
+            if rng.random() < 0.85:
+                g.mutate(b)
+            if rng.random() < 0.3 and streams[d]:
+                g.emit("B,%d,%s,%d" % (d, rng.choice(streams[d]), b))
+                g.held[b] = "given"
+        elif k < 0.70:
+            b = nb % 5
+            nb += 1
+            g.emit("V,%d,%d" % (d, b))
+            g.held[b] = "writer"
+            g.mutate(b)
+        elif k < 0.78:
+            g.mutate()
+        elif k < 0.86 and streams[d]:
+            g.emit("Z,%d,%s,%s" % (d, rng.choice(streams[d]), "".join("%02x" % rng.randint(65, 90) for _ in range(rng.randint(1, 5)))))
+        elif k < 0.92 and len(live) > 1:
+            g.emit("X,%d" % d)
+            g.alive.discard(d)
+        else:
+            g.step(d)
+    for b in sorted(g.held):
+        if rng.random() < 0.5:
+            g.mutate(b)
+    for d in sorted(g.alive):
+        g.emit("W,%d" % d)
+    return g.text()
+
+
+def xgen_copyedit(rng):
+    """the source document was edited through the API (owner-less scalars and containers) before another document copies
+    from it; the destination then works on ITS copy: makes values indirect, edits in place, replaces data, dies"""
+    g = XGen(rng)
+    a = g.new_doc(rng.choice(["D", "D", "F0", "F1"]))
+    b = g.new_doc(rng.choice(["D", "D", "F0"]))
+    objs = []                                   # (handle expression in a, is stream)
+    if g.kind[a] != "D":
+        objs += [("o3", True), ("o4", True), ("o5", False)]
+    for _ in range(rng.randint(1, 2)):
+        if rng.random() < 0.6:
+            r = g.parse(a, depth=rng.choice([1, 2]))
+            g.emit("M,%d,r%d" % (a, r))
+            g.nobj[a] += 1
+            objs.append(("r%d" % r, False))
+        else:
+            r = g.free_root(a)
+            g.emit("N,%d,%d,%s" % (a, r, "".join("%02x" % rng.randint(97, 122) for _ in range(rng.randint(1, 5)))))
+            g.roots[r] = [a, ("S",)]
+            g.nobj[a] += 1
+            objs.append(("r%d" % r, True))
+    picked = rng.sample(objs, min(len(objs), rng.randint(1, 2)))
+    keys = {}
+    for h, is_stream in picked:
+        base = h + ("/d" if is_stream else "")
+        shape = None if is_stream or h[0] == "o" else g.roots[int(h[1:])][1]
+        keys[h] = []
+        for _ in range(rng.randint(1, 4)):
+            v = rng.choice(["I%d" % rng.randint(0, 999), "Y" + rng.choice(XKEYS), "I%d" % rng.randint(0, 9), "B", "G", "U"])
+            if shape is not None and shape[0] == "a":
+                g.emit("A,%d,%s,%s" % (a, base, v))
+                keys[h].append("i%d" % (len(shape[1]) + len(keys[h])))
+            else:
+                k = rng.choice(XKEYS)
+                g.emit("K,%d,%s,%s,%s" % (a, base, k, v))
+                keys[h].append("k" + k)
+    copies = []
+    for h, is_stream in picked:
+        r = g.free_root(b)
+        g.emit("C,%d,%d,%s,%d" % (b, a, h, r))
+        g.roots[r] = [b, ("S",) if is_stream else ("?",)]
+        g.nobj[b] += 1
+        copies.append((r, is_stream, keys[h]))
+    for _ in range(rng.randint(2, 6)):
+        r, is_stream, ks = rng.choice(copies)
+        base = "r%d" % r + ("/d" if is_stream else "")
+        sub = base + ("/" + rng.choice(ks) if ks and rng.random() < 0.8 else "")
+        k = rng.random()
+        if k < 0.45:
+            g.emit("M,%d,%s" % (b, sub))
+        elif k < 0.6:
+            g.emit("K,%d,%s,%s,I%d" % (b, sub, rng.choice(XKEYS), rng.randint(0, 99)))
+        elif k < 0.7:
+            g.emit("A,%d,%s,I%d" % (b, sub, rng.randint(0, 99)))
+        elif k < 0.78:
+            g.emit("R,%d,%s,%s" % (b, base, rng.choice(ks)[1:] if ks and ks[0][0] == "k" else rng.choice(XKEYS)))
+        elif k < 0.86 and is_stream:
+            g.emit("Z,%d,r%d,%s" % (b, r, "".join("%02x" % rng.randint(65, 90) for _ in range(rng.randint(1, 4)))))
+        elif k < 0.93:
+            g.emit("W,%d" % rng.choice([a, b]))
+        else:
+            g.step(a)
+    if rng.random() < 0.6:
+        d = rng.choice([a, b])
+        g.emit("X,%d" % d)
+        g.alive.discard(d)
+    for d in sorted(g.alive):
+        g.emit("W,%d" % d)
+    return g.text()
+
+
+XCORPUS = [
+    # document 1 was edited through the API; document 2 copies the object and makes values of ITS copy indirect
+    "D,1;D,2;P,1,11,<.NA.i1.>;M,1,r11;K,1,r11,B,I90;K,1,r11,C,YK;K,1,r11,D,G;C,2,1,r11,21;M,2,r21/kB;M,2,r21/kC;M,2,r21/kD;W,1;X,2;W,1",
+    # template /MediaBox and /Resources values used for the pages of two documents; one document dies
+    "P,0,1,[.i0.i0.i612.i792.];P,0,2,<.NA.[.NB.NC.].NB.<.NC.<.ND.i5.>.>.>;D,1;D,2;P,1,11,<.NA.NK.>;M,1,r11;K,1,r11,B,r1;K,1,r11,C,r2;"
+    "P,2,21,<.NA.NK.>;M,2,r21;K,2,r21,B,r1;K,2,r21,C,r2;W,1;X,1;W,2",
+    # the same, the documents are created, written and destroyed one after the other
+    "P,0,1,[.i0.i0.i612.i792.];D,1;P,1,11,<.NA.NK.>;M,1,r11;K,1,r11,B,r1;W,1;X,1;D,2;P,2,21,<.NA.NK.>;M,2,r21;K,2,r21,B,r1;W,2;X,2;"
+    "D,3;P,3,31,<.NA.NK.>;M,3,r31;K,3,r31,B,r1;W,3",
+    # a direct container created inside document 1, taken out and put into document 2, then document 1 dies
+    "D,1;D,2;P,1,11,[.i1.];A,1,r11,B;A,1,r11/i1,I5;A,1,r11/i1,G;H,1,12,r11/i1;E,1,r11,1;P,2,21,<.NA.i2.>;M,2,r21;K,2,r21,B,r12;X,1;W,2",
+    # a stream replaced through the API is copied; the bytes obtained from the copy are edited in place
+    "F,1,0;D,2;Z,1,o3,6162636465;C,2,1,o3,21;G,2,r21,0;U,0,0,0,88;G,1,o3,1;U,0,1,1,89;W,1;W,2",
+    # an unmodified stream of a parsed file whose document has setImmediateCopyFrom(true)
+    "F,1,1;D,2;C,2,1,o4,21;g,2,r21,0;U,0,0,2,90;G,1,o4,1;U,0,1,0,65;X,1;G,2,r21,2;U,0,2,1,66;W,2",
+    # a stream created through the API, copied twice; QPDFWriter's output buffer edited
+    "D,1;D,2;D,3;N,1,11,68656c6c6f;C,2,1,r11,21;C,3,2,r21,31;G,3,r31,0;U,0,0,4,33;V,1,1;U,0,1,10,33;V,2,2;U,0,2,20,35;X,2;G,3,r31,3;U,0,3,0,36",
+    # the program gives a buffer it obtained from document 1 to a stream of document 2
+    "F,1,0;D,2;N,2,21,7a7a;G,1,o3,0;U,0,0,0,74;B,2,r21,0;U,0,0,1,75;G,2,r21,1;U,0,1,0,76;W,1;W,2",
+]
+
+
+def xparse_steps(line):
+    out = []
+    for st in line.split("#"):
+        if "|" not in st:
+            return None
+        res, dump = st.split("|", 1)
+        segs = {}
+        starts = [(m.start(1), m.group(1)) for m in XSEG.finditer(dump)]
+        for n, (pos, head) in enumerate(starts):
+            end = starts[n + 1][0] if n + 1 < len(starts) else len(dump)
+            segs[head[:-1]] = dump[pos:end].strip()
+        out.append((res, segs))
+    return out
+
+
+def xseg_party(key):
+    if key == "F":
+        return None
+    if key[0] == "d":
+        return int(key[1:])
+    if key[0] == "b":
+        return "b" + key[1:]
+    return int(key.split("@")[1])
+
+
+def xop_buffer(op):
+    f = op.replace("!", "").split(",")
+    if f[0] in ("G", "g", "B"):
+        return "b" + f[3]
+    if f[0] in ("V", "U"):
+        return "b" + f[2]
+    return None
+
+
+def xframe_violations(hist, steps):
+    """segments that changed although they belong to another party than the acting one (buffer variables: although the
+    operation does not name them)"""
+    ops = [o for o in hist.split(";") if o]
+    bad = []
+    for i, op in enumerate(ops):
+        a = int(op.split(",")[1])
+        mine = xop_buffer(op)
+        before, after = steps[i][1], steps[i + 1][1]
+        for key in sorted(set(before) | set(after)):
+            p = xseg_party(key)
+            if p == a or (isinstance(p, str) and p == mine):
+                continue
+            if before.get(key) != after.get(key):
+                bad.append((i, op, key, before.get(key), after.get(key)))
+    return bad
+
+
+def xstrip(line):
+    """implementation dump -> what the model prints (hashes, fresh-parse probe and trailing blanks removed)"""
+    out = []
+    for st in line.split("#"):
+        st = re.sub(r"^ok:[0-9a-f]{16}", "ok", XHASH.sub("", st)).replace("skip^shared|", "skip|", 1)
+        st = re.sub(r" ?F=.*$", "", st)
+        out.append(st.rstrip())
+    return "#".join(out)
+
+
+def part_alias(chk, drv, runner):
+    """histories over storage that several parties can reach: direct containers shared by documents and program
+    variables, stream data buffers shared by a stream and its foreign copies, buffers handed to the caller"""
+    rng = chk.rng
+    n = 120 if chk.tier == "quick" else 5000
+    fams = (("templates", xgen_templates), ("takeout", xgen_takeout), ("buffers", xgen_buffers), ("copyedit", xgen_copyedit), ("random", xgen_random))
+    hists, fam = list(XCORPUS), {h: "corpus" for h in XCORPUS}
+    for i in range(n):
+        for name, fn in fams:
+            h = fn(rng)
+            hists.append(h)
+            fam[h] = name
+    impl = common.run_lines(drv, ["isox " + h for h in hists], shards=4)
+    model = common.run_lines(runner, ["isox " + h for h in hists], shards=4)
+    nsteps, tie, nosep = 0, [], []
+    kinds, results, nontriv = {}, {}, set()
+    perfam = {}
+    for idx, h in enumerate(hists):
+        ops = [o for o in h.split(";") if o]
+        st = xparse_steps(impl[idx])
+        if st is None or len(st) != len(ops) + 1:
+            chk.violation({"kind": "property-fails-on-implementation", "part": "alias", "why": "the driver did not survive the history",
+                           "history": h, "implementation": impl[idx][:600], "replay": "isox " + h})
+            continue
+        nsteps += len(ops)
+        for o, (r, _) in zip(ops, st[1:]):
+            kinds[o[0]] = kinds.get(o[0], 0) + 1
+            rr = r.split(":")[0]
+            results[rr] = results.get(rr, 0) + 1
+        mst = [x.split("|", 1) for x in model[idx].split("#")]
+        msteps = xparse_steps("#".join(x[0].replace("^nosep", "") + "|" + x[1].rstrip() for x in mst if len(x) == 2))
+        if msteps is None or len(msteps) != len(ops) + 1:
+            chk.violation({"kind": "correspondence-broken", "correspondence": "corr:C20:shared-storage-model", "why": "the model did not run the history",
+                           "history": h, "model": model[idx][:600], "replay": "isox " + h}, no_input=True)
+            continue
+        if any("^nosep" in x[0] for x in mst):
+            nosep.append(h)
+        mclean = "#".join(x[0].replace("^nosep", "") + "|" + x[1].rstrip() for x in mst)
+        if xframe_violations(h, msteps):
+            chk.violation({"kind": "model-violates-frame (hx_frame_other_parties says it cannot)", "history": h, "model": model[idx][:800]}, no_input=True)
+        bad = xframe_violations(h, st)
+        same = xstrip(impl[idx]) == mclean
+        forced = None
+        if not bad and not same:
+            # the library lets another party see an object that, by the model, only the acting document can see (the
+            # driver then refused the in-place operation): perform that operation - it is an operation of the acting
+            # document on its own object - and look at the other parties
+            k = next((i for i, ((r, _), (mr, _)) in enumerate(zip(st[1:], msteps[1:])) if r.startswith("skip^shared") and not mr.startswith("skip")), None)
+            if k is not None:
+                f = ops[k].split(",")
+                h2 = ";".join(ops[:k] + [",".join([f[0] + "!"] + f[1:])] + ops[k + 1:])
+                out2 = common.run_lines(drv, ["isox " + h2])[0]
+                st2 = xparse_steps(out2)
+                if st2 is not None and len(st2) == len(ops) + 1:
+                    bad = [b for b in xframe_violations(h2, st2) if b[0] >= k]
+                    if bad:
+                        forced = {"history_with_the_refused_operation_performed": h2, "refused_step": k, "refused_operation": ops[k],
+                                  "why_refused": "the driver only edits an object in place when no other party can reach it; the library made this one "
+                                                 "reachable from another party although no operation of the history put it there (the model, for which "
+                                                 "separation is the premise of hx_frame_other_parties, says only the acting document can see it)"}
+                        h = h2
+        if bad:
+            i, op, key, b, a = bad[0]
+            p = xseg_party(key)
+            what = ("a fresh parse" if key == "F" else "the Buffer in the program's variable %s, which this operation does not use" % key if isinstance(p, str)
+                    else "the program's own handle %s" % key if p == 0 else "document %s (%s)" % (p, key))
+            chk.violation({"kind": "property-fails-on-implementation", "part": "alias", "family": fam.get(h, fam.get(hists[idx])),
+                           "why": "step %d (%s) is an operation of %s but changed what a caller sees of %s" % (
+                               i, op, "the program on a Buffer it was handed" if op[0] == "U" else "document %s" % op.split(",")[1], what),
+                           "history": h, "step": i, "op": op, "segment": key, "before": b, "after": a, "changed_segments": len(bad),
+                           "model_predicts_the_same": same, "replay": "isox " + h, **(forced or {})})
+        elif not same:
+            tie.append(idx)
+        else:
+            done = sum(1 for r, _ in st[1:] if r.startswith("ok"))
+            perfam[fam[h]] = perfam.get(fam[h], 0) + 1
+            if done >= 5:
+                nontriv.add(h)
+    if nosep:
+        chk.violation({"kind": "model-leaves-theorem-domain", "correspondence": "corr:C20:shared-storage-model",
+                       "why": "a world reached by the model violates the separation premise of hx_frame_other_parties (hx_sep_preserved says it cannot)",
+                       "history": nosep[0], "cases": len(nosep), "replay": "isox " + nosep[0]}, no_input=True)
+    if tie:
+        idx = tie[0]
+        a, b = xstrip(impl[idx]).split("#"), [x.replace("^nosep", "").rstrip() for x in model[idx].split("#")]
+        k = next((i for i in range(min(len(a), len(b))) if a[i] != b[i]), min(len(a), len(b)))
+        chk.violation({"kind": "correspondence-broken", "correspondence": "corr:C20:shared-storage-model", "differing_cases": len(tie),
+                       "history": hists[idx], "first_differing_step": k, "implementation": a[k] if k < len(a) else None,
+                       "model": b[k] if k < len(b) else None, "replay": "isox " + hists[idx]}, no_input=True)
+    chk.count("alias", nsteps, nontriv, samples=[{"history": hists[i], "implementation": impl[i][-200:]} for i in (0, len(XCORPUS), len(hists) - 1)])
+    p = chk.cov["parts"]["alias"]
+    p["histories"] = len(hists)
+    p["op_distribution"] = kinds
+    p["result_distribution"] = results
+    p["frame_clean_and_model_agrees_per_family"] = perfam
+    p["model_disagreements"] = len(tie)
+
+
 # ------------------------------------------------------------------ threads (ThreadSanitizer)
 
 def make_pdfs(wd):
@@ -689,8 +1356,13 @@ def run(chk):
                        "~QPDF, write, JSON export) run by the real library and by the extracted heap model; after every call the dumps of all "
                        "other documents, of handles obtained from them and of two fresh parses must be unchanged; non-trivial = history with "
                        ">= 4 performed calls on which the frame held and the model agrees, distinct by history text")
+    chk.cov["rule"] += ("; alias: histories over 2-3 documents and the program's own handles (families: template values put into several documents that die; a direct "
+                        "container taken out of one document and put into another; streams of every provenance copied both ways with the Buffers from "
+                        "getRawStreamData / getStreamData / QPDFWriter edited in place and passed back; a source edited through the API, copied, the destination working on "
+                        "its copy; random) against the extracted shared-storage model; after every step every other document (unparse, stream dictionary + raw data, JSON, "
+                        "QPDFWriter bytes), every retained handle and every other Buffer variable must be unchanged; non-trivial = >= 5 performed calls, frame held, model agrees")
     import time
-    for name, fn in (("seq", lambda: part_seq(chk, drv, runner)), ("file", lambda: part_file(chk, drv)), ("log", lambda: part_log(chk, drv, runner)),
+    for name, fn in (("seq", lambda: part_seq(chk, drv, runner)), ("alias", lambda: part_alias(chk, drv, runner)), ("file", lambda: part_file(chk, drv)), ("log", lambda: part_log(chk, drv, runner)),
                      ("copy", lambda: part_copy(chk, drv)), ("thr", lambda: part_thr(chk))):
         t0 = time.time()
         fn()
@@ -717,6 +1389,16 @@ def replay(chk, rep):
         print("model         :", m[:2000])
         print("frame violations:", bad[:3] if bad else bad)
         return 1 if (bad or strip_hash(i) != m) else 0
+    if line and line.startswith("isox "):
+        i = common.run_lines(drv, [line])[0]
+        m = common.run_lines(runner, [line.replace("!", "")])[0]
+        st = xparse_steps(i)
+        bad = xframe_violations(line[5:], st) if st else None
+        print("implementation:", i[:3000])
+        print("model         :", m[:3000])
+        print("frame violations:", bad[:3] if bad else bad)
+        mclean = "#".join(x.split("|", 1)[0].replace("^nosep", "") + "|" + x.split("|", 1)[1].rstrip() for x in m.split("#") if "|" in x)
+        return 1 if (bad or xstrip(i) != mclean) else 0
     if line and line.startswith("isolog "):
         print("implementation:", common.run_lines(drv, [line])[0])
         print("model         :", common.run_lines(runner, [line])[0])
